@@ -86,7 +86,8 @@ def _noop_check(ws, scn, path, viols, detail):
     w = [e for e in r.writes()]
     if w:
         viols.append(violation('C04.rerun_executed_sql', path=path,
-                               first=w[0]['sql'][:120], n=len(w), **detail))
+                               first=w[0]['sql'][:120], n_writes=len(w),
+                               **detail))
     p = r.probe('sig') or {}
     # judged by the difference (what decides whether an upgrade is
     # required); '==' disagreeing with an empty difference is C05's subject
